@@ -23,6 +23,7 @@ type c08Case struct {
 	Kind string `json:"kind"`
 	Lay  struct {
 		Pre     int    `json:"pre"`
+		Lead    string `json:"lead"`
 		Hdr     int    `json:"hdr"`
 		L       int    `json:"L"`
 		Post    int    `json:"post"`
@@ -106,21 +107,25 @@ func c08Replay(args []string) error {
 					post = mkBox("free", zeros(c.Lay.Post-8))
 				}
 				stbl := [][]byte{mStsd(), mStts([]runEntry{{1, 1}}), mStsc([]stscEntry{{1, 1, 1}}), mStsz(0, []int{c.Lay.L})}
+				var lead []byte
+				if c.Lay.Lead == "free64" {
+					lead = mkBoxLarge("free", []byte{1, 2, 3, 4})
+				}
 				switch c.Lay.Order {
 				case "moov-mdat":
 					f, base := buildProgFile(stbl, []int{0}, false, payload, nil, 1000, 1, large)
 					b = built{cat(f, emdA, post), base}
 				case "mdat-moov":
 					ftyp := mFtyp("isom", 0x200, "isom")
-					base := len(ftyp) + len(emdB) + c.Lay.Hdr
+					base := len(ftyp) + len(lead) + len(emdB) + c.Lay.Hdr
 					trak := mTrak(1, 1000, 1, true, nil, append(stbl, mStco([]int64{int64(base)}))...)
 					moov := mkBox("moov", mMvhd(1000, 1, 2), trak)
-					b = built{cat(ftyp, emdB, mMdat(payload, large), emdA, moov, post), base}
+					b = built{cat(ftyp, lead, emdB, mMdat(payload, large), emdA, moov, post), base}
 				case "frag":
 					ini := mFragInit([]int64{1}, 1000)
 					frag := mSimpleFragment(1, 1, 0, []mSample{{1, int64(c.Lay.L), 0, 0}}, payload, large)
-					base := len(ini) + len(frag) - c.Lay.L
-					b = built{cat(ini, frag, post), base}
+					base := len(ini) + len(lead) + len(frag) - c.Lay.L
+					b = built{cat(ini, lead, frag, post), base}
 				}
 				cache[key] = b
 			}
